@@ -1378,6 +1378,9 @@ func runC04(c *core.Ctx) core.Meta {
 	checkDstRegisterFile(c, t)
 	checkVOP3PModifiers(c, t)
 	checkTableIndependentOfConfiguration(c)
+	checkVOP2ImplicitVCC(c, t)
+	checkDSOffsetForms(c, t)
+	checkPrinterReadsWholeOperand(c)
 	checkFLATOperands(c, t)
 	checkSMEMOperands(c, t)
 	checkSOP2Operands(c, t)
